@@ -41,6 +41,21 @@ func checkC12(c *Ctx) error {
 		return fmt.Errorf("harness function missing")
 	}
 	total := runVarPoolHistories(c, k, fn, maxK, maxLen, nil, "C12")
+	// the same obligations one level up: names and done-channel names requested the way the
+	// generator requests them (InjectorParam.Name / ChannelName), whatever allocator entry
+	// points those use
+	pk := maxK - 1
+	if v := os.Getenv("VERIF_PARAMK"); v != "" {
+		fmt.Sscan(v, &pk)
+	}
+	pt := runVarPoolHistories(c, k, fn, pk, maxLen, nil, "C12-param", "verifHarnessParamNames")
+	total.obligations += pt.obligations
+	total.holds += pt.holds
+	total.violated += pt.violated
+	total.unknown += pt.unknown
+	total.paths += pt.paths
+	total.reached += pt.reached
+	c.Coverage["param_level_histories"] = map[string]any{"length": pk, "paths": pt.paths, "obligations": pt.obligations}
 	// Translator validation: seeded concrete histories through the interpreter
 	// and through the native build must give identical outputs.
 	if err := validateVarPoolTranslator(c, k); err != nil {
@@ -98,9 +113,17 @@ type vpTotals struct {
 	obligations, holds, violated, unknown, paths, reached, unconfirmed int
 }
 
-func runVarPoolHistories(c *Ctx, k *Kernel, fn interface{ String() string }, maxK, maxLen int, hard []string, tag string) vpTotals {
+func runVarPoolHistories(c *Ctx, k *Kernel, fn interface{ String() string }, maxK, maxLen int, hard []string, tag string, harness ...string) vpTotals {
 	var t vpTotals
-	f := k.Pkg.Func("verifHarnessVarPool")
+	hname := "verifHarnessVarPool"
+	if len(harness) > 0 {
+		hname = harness[0]
+	}
+	f := k.Pkg.Func(hname)
+	if f == nil {
+		c.Inconclusive("harness function " + hname + " missing")
+		return t
+	}
 	reported := map[string]bool{}
 	// A history of length k-1 is a prefix of one of length k and the final
 	// assertions range over all outputs, so only the longest length is run.
@@ -133,6 +156,9 @@ func runVarPoolHistories(c *Ctx, k *Kernel, fn interface{ String() string }, max
 					script := symx.Script(r.Inputs, a.Model)
 					kinds := opKinds(r.Inputs)
 					sig := map[string]string{"kind": a.ID, "ops": kinds}
+					if hname != "verifHarnessVarPool" {
+						sig["harness"] = hname
+					}
 					key := sigString(sig)
 					if reported[key] {
 						continue
@@ -143,7 +169,7 @@ func runVarPoolHistories(c *Ctx, k *Kernel, fn interface{ String() string }, max
 						if len(hard) > 0 {
 							hardLit = fmt.Sprintf("%#v", hard)
 						}
-						out, _ := k.ReplayNative("internal/kessoku", "kessoku", fmt.Sprintf("verifHarnessVarPool(%d, %d, %s)", n, maxLen, hardLit), script)
+						out, _ := k.ReplayNative("internal/kessoku", "kessoku", fmt.Sprintf("%s(%d, %d, %s)", hname, n, maxLen, hardLit), script)
 						if !strings.Contains(out, "VERIF-ASSERT-FAIL "+a.ID) {
 							t.unconfirmed++
 							c.Inconclusive(fmt.Sprintf("UNCONFIRMED %s counterexample %v (native replay did not reproduce): %s", a.ID, script, lastLines(out, 5)))
@@ -153,7 +179,7 @@ func runVarPoolHistories(c *Ctx, k *Kernel, fn interface{ String() string }, max
 					}
 					reported[key] = true
 					c.Sample(map[string]any{"violation": a.ID, "history": script, "ops": kinds})
-					c.Report(sig, map[string]any{"harness": "verifHarnessVarPool", "k": n, "maxLen": maxLen, "hard": hard, "script": script, "assert": a.ID}, fmt.Sprintf("%s-%s-%s", tag, a.ID, strings.ReplaceAll(kinds, ",", "")))
+					c.Report(sig, map[string]any{"harness": hname, "k": n, "maxLen": maxLen, "hard": hard, "script": script, "assert": a.ID}, fmt.Sprintf("%s-%s-%s", tag, a.ID, strings.ReplaceAll(kinds, ",", "")))
 				}
 			}
 		}
